@@ -196,8 +196,11 @@ def run_check(pid, rules, tier, model_factory, level='other',
         print(f'SELF-VALIDATION must_fire={selfval["must_fire"]} '
               f'fired={selfval["fired"]} must_stay_silent='
               f'{selfval["must_stay_silent"]} silent={selfval["silent"]}')
-        if selfval['fired'] != selfval['must_fire'] or \
-           selfval['silent'] != selfval['must_stay_silent']:
+        if selfval.get('seeded'):
+            print(f'SELF-VALIDATION seeded={selfval["seeded"]} '
+                  f'seeded_fired={selfval["seeded_fired"]} '
+                  f'seeded_stale={selfval["seeded_stale"]}')
+        if selfval['failures']:
             for m in selfval.get('failures', []):
                 print('  SELF-VALIDATION-FAILURE', m)
             print(f'ANALYSIS-ERROR property={pid} self-validation of the '
